@@ -62,7 +62,7 @@ def generate(rng, tier):
     for ln in range(0, 7):
         yield f"hdr {hx(rng.randbytes(ln))}", "hdr-short"
     # re-framing of constructed packets
-    n = 30 if tier == "quick" else 20000
+    n = 100 if tier == "quick" else 20000
     sweep = [1, 2, 255, 256, 257, 511, 512, 513, 1023, 1024, 1025, 1536, 4096, 32767, 32768, 32769, 65535, 65536]
     for i in range(n + len(sweep)):
         p = pu.mk_packet(rng, sweep[i] if i < len(sweep) else None)
